@@ -377,6 +377,20 @@ NP_SIGS = {
     "repeat": (["a", "repeats", "axis"], 2, {}),
     "diagonal": (["a", "offset", "axis1", "axis2"], 1, {}),
     "searchsorted": (["a", "v", "side"], 2, {"side": "left"}),
+    "divide": (["x1", "x2", "out"], 2, {}), "add": (["x1", "x2", "out"], 2, {}), "subtract": (["x1", "x2", "out"], 2, {}),
+    "multiply": (["x1", "x2", "out"], 2, {}),
+    "full_like": (["a", "fill_value", "dtype"], 2, {}), "ones_like": (["a", "dtype"], 1, {}), "zeros_like": (["a", "dtype"], 1, {}),
+    "empty_like": (["prototype", "dtype"], 1, {}),
+    "zeros": (["shape", "dtype"], 1, {}), "ones": (["shape", "dtype"], 1, {}), "empty": (["shape", "dtype"], 1, {}),
+    "full": (["shape", "fill_value", "dtype"], 2, {}),
+    "concatenate": (["arrays", "axis"], 1, {}), "sort": (["a", "axis"], 1, {}), "flip": (["m", "axis"], 1, {}),
+    "reshape": (["a", "shape"], 2, {}), "clip": (["a", "a_min", "a_max"], 3, {}), "where": (["condition", "x", "y"], 3, {}),
+    "nextafter": (["x1", "x2"], 2, {}), "isclose": (["a", "b", "rtol", "atol"], 2, {}),
+    "mean": (["a", "axis"], 1, {}), "std": (["a", "axis"], 1, {}), "prod": (["a", "axis"], 1, {}), "cumsum": (["a", "axis"], 1, {}),
+    "any": (["a", "axis"], 1, {}), "all": (["a", "axis"], 1, {}), "argsort": (["a", "axis"], 1, {}),
+    "expand_dims": (["a", "axis"], 1, {}), "squeeze": (["a", "axis"], 1, {}),
+    "interp": (["x", "xp", "fp"], 3, {}), "trapezoid": (["y", "x"], 1, {}),
+    "asarray": (["a", "dtype"], 1, {}), "array": (["object", "dtype"], 1, {}),
     "random.binomial": (["n", "p", "size"], 0, {}), "random.poisson": (["lam", "size"], 0, {}),
     "random.choice": (["a", "size", "replace", "p"], 1, {"replace": True}),
     "random.normal": (["loc", "scale", "size"], 0, {}),
@@ -398,6 +412,8 @@ def canonical_call(name, args, kwargs):
         args.append(kwargs.pop(names[len(args)]))
     for k, d in defaults.items():
         kwargs.setdefault(k, Const(d))
+    if name == "diagonal" and kwargs.get("offset") == Const(0):
+        del kwargs["offset"]  # the default spelled out
     return args, kwargs
 
 
@@ -889,7 +905,7 @@ METHOD_PURE = {"sum", "std", "mean", "min", "max", "round", "any", "all", "flatt
 
 
 NP_METHOD_FORMS = {"sum", "mean", "min", "max", "any", "all", "prod", "argmin", "argmax", "argsort", "nonzero", "cumsum", "std",
-                   "clip", "take", "repeat", "squeeze", "ravel", "transpose", "round"}
+                   "clip", "take", "repeat", "squeeze", "ravel", "transpose", "round", "searchsorted", "diagonal"}
 
 
 def call_method(ev, recv, name, args, kwargs, node):
